@@ -387,3 +387,7 @@ impl BufferParser for Parser {
         Ok(CallbackAction::Update)
     }
 }
+
+#[cfg(any(kani, icy_engine_verif))]
+#[path = "/verif/kc/mode7_harness.rs"]
+mod verif_kani;
